@@ -154,10 +154,32 @@ fn fam_bigopt(seed: u64, index: u64) -> Scenario {
     Scenario { fam: "big".into(), id: index, opts: Opts::default(), steps, engine: false }
 }
 
+/// Absolute value over a domain that contains i32::MIN (whose absolute value is not an i32).
+fn fam_bigabs(seed: u64, index: u64) -> Scenario {
+    let mut rng = rng_for(seed, "bigabs", index);
+    let hi = if rng.gen_bool(0.5) { i32::MIN + rng.gen_range(0..=4) } else { rng.gen_range(-3..=5) };
+    let mut steps = vec![
+        Step::NewVarRange { lo: i32::MIN, hi },
+        Step::NewVarRange { lo: if rng.gen_bool(0.5) { 0 } else { -5 }, hi: i32::MAX - rng.gen_range(0..=1) },
+        Step::Post { c: Cons::Abs { a: View::var(2), b: View::var(3) }, tag: None },
+        Step::Bounds { xs: vec![View::var(2), View::var(3)] },
+    ];
+    for x in [i32::MIN, i32::MIN + 1, hi] {
+        let y = if x == i32::MIN { i32::MAX } else { x.checked_abs().unwrap_or(i32::MAX) };
+        steps.push(Step::Point { vals: vec![1, x, y] });
+        steps.push(Step::Point { vals: vec![1, x, y.saturating_sub(1).max(0)] });
+    }
+    steps.push(Step::Satisfy { br: BrSpec { kind: "default".into(), var: 0, val: 0 }, stop_at: Some(400) });
+    Scenario { fam: "big".into(), id: index, opts: Opts::default(), steps, engine: false }
+}
+
 pub fn fam_big(seed: u64, _tier: &str, index: u64) -> Scenario {
-    // every eleventh scenario optimises at the extreme values
+    // every eleventh scenario optimises at the extreme values, another one takes |i32::MIN|
     if index % 11 == 10 {
         return fam_bigopt(seed, index);
+    }
+    if index % 11 == 9 {
+        return fam_bigabs(seed, index);
     }
     let rng = rng_for(seed, "big", index);
     let mut b = B {
